@@ -1352,6 +1352,16 @@ func menuPaged() []item {
 			return &delivery{Seq: "ext", Ext: &extCase{kind: "paged", k: T}, Flag: c.fam.SRIH}
 		}})
 	}
+	// round 4: the node is restarted after the long header chain was recorded and flushed (the started node
+	// rebuilds its header hash list from a stored page plus the walk back from the current header)
+	for _, T := range []int{1999, 2000, 2001} {
+		its = append(its, item{ID: fmt.Sprintf("paged.headers-to-%d.restarted.then-corrupted-E1", T), Group: "paged", Make: func(c *stateCtx) *delivery {
+			if !c.pagedApplicable() {
+				return nil
+			}
+			return &delivery{Seq: "ext", Ext: &extCase{kind: "paged", k: T, reopen: true}, Flag: c.fam.SRIH}
+		}})
+	}
 	for _, bad := range []int{1999, 2000, 2001} {
 		its = append(its, item{ID: fmt.Sprintf("paged.batch-to-%d.unsigned-header-at-%d", bad+1, bad), Group: "paged", Make: func(c *stateCtx) *delivery {
 			if !c.pagedApplicable() {
@@ -1383,7 +1393,11 @@ func (c *stateCtx) runPaged(ec *extCase, ctl *control, o *outcome, base *caseRec
 		o.harness = "prepare: " + err.Error()
 		return
 	}
-	defer n.Close()
+	defer func() {
+		if n != nil {
+			n.Close()
+		}
+	}()
 	try := tryFn(o, bad)
 	pre, err := takeSnap(n, c.maxID)
 	if err != nil {
@@ -1427,6 +1441,36 @@ func (c *stateCtx) runPaged(ec *extCase, ctl *control, o *outcome, base *caseRec
 			bad("header-batch-changed-database", errClass(herr), df, "nothing was recorded")
 			return
 		}
+	}
+	if ec.reopen {
+		m, err := n.Reopen()
+		n = m
+		if err != nil {
+			// not judged here (C02)
+			rsCount(&rsStats.problems, "paged: restart failed: "+err.Error())
+			fmt.Printf("note: %s: restart with the header chain up to %d recorded failed: %v\n", c.label(), post.HdrHeight, err)
+			o.class, o.result, o.errText, o.viols = "n/a", "n/a", "restart problem", nil
+			return
+		}
+		rsCount(&rsStats.restarts, fmt.Sprintf("paged/mem/headers-ahead=%d", post.HdrHeight-post.Height))
+		if err := c.applyPool(n, c.mode); err != nil { // a mempool does not survive a restart
+			o.harness = "pool after the restart: " + err.Error()
+			return
+		}
+		if rs, err := takeSnap(n, c.maxID); err != nil {
+			bad("unreadable-after-restart", err.Error(), nil, "")
+			return
+		} else if df := post.diff(rs, true); len(df) != 0 {
+			why := "paged: observable state after the restart differs: " + strings.Join(df, "; ")
+			rsCount(&rsStats.problems, why)
+			fmt.Printf("note: %s: %s\n", c.label(), why)
+		}
+		if err := n.Persist(); err != nil {
+			bad("flush-failed", err.Error(), nil, "after the restart")
+			return
+		}
+		d1 = rawDump(n.Store)
+		o.result += ", restarted"
 	}
 	fresh := pc.blocks(c.fam.SRIH, 2)
 	deliveries := []struct {
